@@ -159,6 +159,25 @@ fn one_case(ctx: &Ctx, case: u64, l: &mut Local) {
             }
         }
     }
+    // both reserved names in the SAME object (every site, one strategy / format each)
+    for t in 0..sites {
+        let mut pos = String::new();
+        let one = plant(&u, t, &mut 0, 0, false, "_sd", &values[vk % 6], r.chance(50), &mut pos);
+        let both = plant(&one, t, &mut 0, 0, false, "...", &values[(vk + 1) % 6], r.chance(50), &mut pos);
+        let st = &strategies[t % 4];
+        let fmt = FMTS[t % 2];
+        l.evals += 1;
+        match api::issue(&mut issuer, &both, st, None, t % 3 == 0, fmt) {
+            Outcome::Err(_) => l.count("plant.both.refused"),
+            other => l.violate(Violation {
+                subcheck: "reserved-name-issued".into(),
+                class: format!("_sd and ... in one object @ {pos}"),
+                observed: other.panic_signature().unwrap_or_else(|| "Ok (SD-JWT produced)".into()),
+                case,
+                detail: json!({"claims": both, "site": t, "strategy": st.describe(), "format": fmt.name()}),
+            }),
+        }
+    }
     // near-misses at a few random sites: must be issued
     let near_names = ["_sdx", "_sd ", "....", "..", "_SD", "_sd_", ". . .", " _sd", "…"];
     for nm in near_names {
